@@ -336,6 +336,7 @@ static void mpmc_setup(void) {
   mpmc_fifo_node_t* init = malloc(sizeof *init);
   init->hazard.gc_data = 0;
   init->hazard.gc_function = mf_gc_fn;
+  RT_DIRTY(mf);
   mpmc_fifo_init(&mf, init);
   vs_watch(&mf, sizeof mf);
   // records registered up-front unless the case asks for lazy registration
@@ -416,9 +417,11 @@ static DSVAR long q_peeks;
 static void q_setup(void) {
   q_kind = (int)cfg_get("qkind", 0);
   if (q_kind == Q_MPSC) {
+    RT_DIRTY(q_mpsc);
     mpsc_fifo_init(&q_mpsc);
     vs_watch(&q_mpsc, sizeof q_mpsc);
   } else if (q_kind == Q_SPSC) {
+    RT_DIRTY(q_spsc);
     spsc_fifo_init(&q_spsc);
     vs_watch(&q_spsc, sizeof q_spsc);
   } else {
@@ -581,6 +584,31 @@ static int rb_do_op(int t, op_t* op) {
     }
     return 1;
   }
+  if (!strcmp(op->name, "bpush")) {
+    // the waiting entry points (generated only in cases where blocking pushes and blocking pops balance)
+    for (int i = 0; i < op->a; i++) {
+      long v = gv_new(t);
+      int id = lin_begin(t, OP_PUSH, v);
+      lockfree_ring_buffer_push(rb, (void*)v);
+      lin_end(id, OP_PUSH, 0);
+      gv_pushed(v);
+      grb_occupancy();
+      if (lockfree_ring_buffer_size(rb) > (size_t)rb_cap) vs_violation("capacity_exceeded", "lockfree_ring_buffer_size reports more than the capacity %d", rb_cap);
+      if (op->b) ds_work(t, op->b);
+    }
+    return 1;
+  }
+  if (!strcmp(op->name, "bpop")) {
+    for (int i = 0; i < op->a; i++) {
+      uint64_t inv = gv_take_begin();
+      int id = lin_begin(t, OP_POP, 0);
+      void* r = lockfree_ring_buffer_pop(rb);
+      lin_end(id, OP_POP, (long)r);
+      gv_taken(t, (long)r, inv, "ring buffer pop");
+      if (op->b) ds_work(t, op->b);
+    }
+    return 1;
+  }
   if (!strcmp(op->name, "tpop")) {
     for (int i = 0; i < op->a; i++) {
       uint64_t inv = gv_take_begin();
@@ -676,6 +704,7 @@ static void wq_work_loop(int t, int s, int work) {
   }
 }
 static void wq_setup(void) {
+  RT_DIRTY(wq);
   work_queue_init(&wq);
   vs_watch(&wq, sizeof wq);
   wq_presession = -1;
@@ -759,12 +788,15 @@ static DSVAR long d_retry, d_reuse;
 static void d_setup(void) {
   d_kind = (int)cfg_get("dkind", 0);
   if (d_kind == D_LIFO) {
+    RT_DIRTY(d_lifo);
     mpmc_lifo_init(&d_lifo);
     vs_watch(&d_lifo, sizeof d_lifo);
   } else if (d_kind == D_DIST) {
+    RT_DIRTY(d_dist);
     dist_fifo_init(&d_dist);
     vs_watch(&d_dist, sizeof d_dist);
   } else {
+    RT_DIRTY(d_stack);
     mpmc_stack_init(&d_stack);
     vs_watch(&d_stack, sizeof d_stack);
   }
@@ -783,7 +815,13 @@ static void d_push(int t, void* reuse) {
   } else {
     mpmc_stack_node_t* n = reuse ? reuse : malloc(sizeof *n);
     mpmc_stack_node_init(n, (void*)v);
-    mpmc_stack_push(&d_stack, n);
+    // both entry points: every third value goes through the bounded-retry variant (1-3 tries per call, called again until it
+    // reports success; a call that gives up must leave the stack as it found it)
+    if (v % 3 == 0) {
+      while (mpmc_stack_push_timeout(&d_stack, n, (size_t)(1 + v % 2 + v % 5 % 2)) != MPMC_SUCCESS) g_add(&d_retry, 1);
+    } else {
+      mpmc_stack_push(&d_stack, n);
+    }
   }
   lin_end(id, OP_PUSH, 0);
   gv_pushed(v);
